@@ -59,9 +59,9 @@ CLAIMS = {
              "what RUNNING steps hold; a step dispatched to run its command has its resources free and is _safe (no "
              "holding creator); release without hold is rejected; leaving RUNNING resets the hold counter. The oracle "
              "checks resource sums of RUNNING steps and holding creators on the real database after every request.",
-        note=BASE_NOTE + "The job limit and the overlap of executions in time are properties of the builder loop and "
-             "are decided on simulated builds (not claimed by a theorem). F7/F9 (recycling a detached RUNNING step) "
-             "remain in scope of the oracle.",
+        note=BASE_NOTE + "The job limit, the overlap of executions in time and hold blocks of whole builds are properties "
+             "of the builder loop: decided by the oracle on simulated builds of the real director (logical clock), not "
+             "by a theorem. F7/F9 (recycling a detached RUNNING step) remain in scope of the oracle.",
         technique="Lean 4 proof of the dispatch-time resource/hold decision + kernel correspondence + invariant oracle",
         design="9/C12",
     ),
@@ -105,17 +105,24 @@ CLAIMS = {
         design="9/C17",
     ),
     "C09": dict(
-        text="Lean theorems (first round): obligations on the regenerated _HASH_TRANSITIONS table (role preserved, "
-             "hash/state consistency, functional, action targets); every write to a file row leaves a row satisfying "
-             "the state/hash invariant and writes UNDECLARED only on detached nodes; every write of a step state "
-             "leaves deferred=>PENDING and holding=>RUNNING; the creator-cycle guard rejects reattaching a node "
-             "below itself. The executable kernel model (all requests) is tied to the code by the kernel "
-             "correspondence over all scopes; the lift of the invariants to all request sequences is not proved yet: "
-             "on generated sequences the full invariant set is evaluated on the real database after every request.",
+        text="Lean theorems about the executable kernel model (every request the harness drives is a constructor of "
+             "`Req`, `KState.exec` is what the correspondence compares): obligations on the regenerated "
+             "_HASH_TRANSITIONS table; every write to a file or step row leaves a consistent row; a rejected request "
+             "changes nothing; and, for every history of accepted and rejected requests from the empty workflow, under "
+             "configurations that may change between requests: states and stored hashes of all file rows are mutually "
+             "consistent, dependencies only link files with steps (or static trees with files), there is one node per "
+             "(kind, label), and deferred=>PENDING / holding=>RUNNING for histories whose hold requests hit RUNNING steps "
+             "(the unguarded statement has a kernel-checked counterexample). These follow from a generic theorem: any "
+             "predicate preserved by the primitive writes is an invariant of every history. The creator-cycle guard "
+             "rejects reattaching a node below itself. The remaining clauses (detached <=> unreachable, acyclicity, "
+             "undeclared => detached, no internal error) are evaluated by an SQL-free oracle on the real database "
+             "after every generated request.",
         note=BASE_NOTE + "The whole K layer is a model (SQL statements, triggers, recursive CTEs modelled by hand). I4 "
-             "(SUCCEEDED => outputs BUILT) holds per director transaction and is decided on simulated builds, not here.",
-        technique="Lean 4 proof over generated tables and row-level primitives + kernel differential correspondence "
-                  "with an SQL-free invariant oracle",
+             "(SUCCEEDED => outputs BUILT) holds per director transaction and is decided on simulated builds (C01/C05). "
+             "Known: internal ConsistencyError when a static declaration collides with a foreign file under a static "
+             "tree that a recycle re-attached (consequence of the C08 finding F21).",
+        technique="Lean 4 proof (invariants by induction over request histories, generic in the predicate) + kernel "
+                  "differential correspondence with an SQL-free invariant oracle",
         design="9/C09",
     ),
     "C20": dict(
